@@ -187,6 +187,28 @@ def diff_task(task):
                    dict(argv=argv, input=lines[k], expected=want, observed=got), cls=c)
     if outs:
         sh.sample(dict(cmd=core.shq(argv), input=lines[0], output=outs[0]), cap=1)
+    # one operand as epoch stamp, the other as civil date-time (either way round)
+    for mode in ("epoch-first", "epoch-last"):
+        sub = list(range(0, len(ebs), max(1, len(ebs) // 60)))
+        if mode == "epoch-first":
+            argv = [str(bindir / "ddiff"), "-f", "%S", "--", "@%d" % ea]
+            ins = [lines[k] for k in sub]
+        else:
+            argv = [str(bindir / "ddiff"), "-f", "%S", "-i", "%FT%T", "-i", "%s", "--", A]
+            ins = ["%d" % ebs[k] for k in sub]
+        r = run(argv, stdin=("\n".join(ins) + "\n").encode(), cpu=60, wall=300)
+        sh.procs += 1
+        sh.check_san(r, "san", "tdiff:mixed:san")
+        outs2, _ = align_lines(ins, r)
+        for k, got in zip(sub, outs2):
+            want = ebs[k] - ea
+            c = ("tdiff-mixed", mode, "+" if want >= 0 else "-", "pre1970" if min(ea, ebs[k]) < 0 else "post1970")
+            if got == "%d" % want:
+                sh.ok("tdiff", c)
+            else:
+                sh.bad("tdiff", "tdiff:mixed:%s:%s" % (mode, c[3]) + l606(ea, ebs[k]),
+                       "%s < %s -> %r, epoch difference is %d" % (core.shq(argv), ins[sub.index(k)], got, want),
+                       dict(argv=argv, input=ins[sub.index(k)], expected=want, observed=got), cls=c)
     return sh
 
 
